@@ -138,6 +138,53 @@ func runFiles(c *Case, out *Out) {
 	}
 }
 
+// runFarFiles: the same model-free tiling oracle on a torrent longer than
+// 4 GiB (two files: 4 GiB + 512 KiB, then 3 MiB; pieces of 1 MiB), for pieces
+// on both sides of offset 2^32.
+func runFarFiles(c *Case, out *Out) {
+	const ps = 1 << 20
+	files := []mktor.File{{Path: []string{"d", "big"}, Length: 1<<32 + 512*1024}, {Path: []string{"d", "tail"}, Length: 3 << 20}}
+	t, err := mktor.New(mktor.Spec{Name: "far", PieceLen: ps, Files: files, Seed: uint64(c.ID), HashOnly: []int{}}, "")
+	if err != nil {
+		out.Note = "torrent: " + err.Error()
+		return
+	}
+	total := files[0].Length + files[1].Length
+	for _, rg := range [][3]int64{{0, 0, ps}, {4095, 0, ps}, {4096, 0, ps}, {4096, 16384, 32768}, {4096, 512*1024 - 16384, 65536}, {4097, 0, ps}, {4098, 0, ps}, {4098, ps - 16384, 16384}} {
+		index, offset, l := uint32(rg[0]), uint32(rg[1]), rg[2]
+		o := int64(index)*ps + int64(offset)
+		if o+l > total {
+			l = total - o
+		}
+		var got []tor.VerifFileChunk
+		func() {
+			defer func() {
+				if p := recover(); p != nil {
+					out.viol("filechunks-panic", fmt.Sprintf("fileChunks panicked: %v (piece %d offset %d length %d of a torrent of %d bytes)", p, index, offset, l, total))
+				}
+			}()
+			got = tor.VerifFileChunks(t, index, offset, uint32(l))
+		}()
+		desc := fmt.Sprintf("files of 2^32+512 KiB and 3 MiB, piece %d offset %d length %d (torrent offset 2^32%+d)", index, offset, l, o-(1<<32))
+		pos := o
+		for _, g := range got {
+			k := 0
+			if strings.Join(g.Path, "/") == "d/tail" {
+				k = 1
+			}
+			fo := int64(k) * files[0].Length
+			if g.Length <= 0 || g.Offset < 0 || g.Offset+g.Length > files[k].Length || fo+g.Offset != pos || g.FileLength != files[k].Length {
+				out.viol("filechunks-mapping", fmt.Sprintf("chunk (file %d, offset %d, length %d) does not continue the range at torrent offset %d (%s)", k, g.Offset, g.Length, pos, desc))
+				return
+			}
+			pos += g.Length
+		}
+		if pos != o+l {
+			out.viol("filechunks-coverage", fmt.Sprintf("the chunks cover [%d, %d), the range ends at %d (%s)", o, pos, o+l, desc))
+		}
+	}
+}
+
 // ---------------------------------------------------------------------------
 // part 2: the writer
 
@@ -740,6 +787,8 @@ func Handle(in []byte) any {
 	switch c.Kind {
 	case "files":
 		runFiles(&c, out)
+	case "farfiles":
+		runFarFiles(&c, out)
 	case "writer":
 		runWriter(&c, out)
 	case "hget":
